@@ -228,6 +228,12 @@ Definition our_server_keys (hm : hmap) (sys usr : state) (q : name) : option (li
   | [] => match lookup hm usr q with (_ :: _) as es => Some es | [] => None end
   end.
 
+(* Transport.gss_kex_used: reset by _send_kex_init, set to True by the GSS key exchange engines only
+   (paramiko/kex_gss.py), i.e. exactly when a gss-X method was NEGOTIATED and carried out; what the
+   peer merely ADVERTISES in its KEXINIT plays no role.  SSHClient.connect skips its host key block
+   on this flag and on nothing else. *)
+Definition gss_kex_used_flag (negotiated_is_gss peer_advertises_gss : bool) : bool := negotiated_is_gss.
+
 Definition bad_host_key : exn := LibExc 17.      (* BadHostKeyException *)
 
 Definition client_connect (hm : hmap) (sys usr : state) (host_id bracket_id port : Z) (p : policy)
@@ -267,7 +273,7 @@ Definition run_tconnect (c : option key * (bool * bool * bool) * key) : list Z :
   let '(tr, r) := transport_connect expected gss ok want sk in
   res_code r :: flat_map cobs_code tr.
 
-Definition run_cconnect (c : hmap * (state * state) * (Z * Z * Z) * policy * (bool * bool) * key) : list Z :=
-  let '(hm, (sys, usr), (h, b, port), p, (gss, ok), sk) := c in
-  let '(tr, r) := client_connect hm sys usr h b port p gss ok sk in
+Definition run_cconnect (c : hmap * (state * state) * (Z * Z * Z) * policy * (bool * bool * bool) * key) : list Z :=
+  let '(hm, (sys, usr), (h, b, port), p, (neg_gss, adv_gss, ok), sk) := c in
+  let '(tr, r) := client_connect hm sys usr h b port p (gss_kex_used_flag neg_gss adv_gss) ok sk in
   res_code r :: flat_map cobs_code tr.
